@@ -2091,7 +2091,81 @@ theorem cf_eq (s : Stmt) : ∀ (cur : Nat) (lab : Option Label) (ctx : List BI) 
         rw [e8, e3, e2, e7]; simp [c, Nat.add_assoc]
       rw [← hG]
       exact L
-  | forOf sp body ih => intro cur lab ctx cs hst; simp [stage1] at hst
+  | forOf sp body ih =>
+    intro cur lab ctx cs hst _ hi hnop
+    simp only [stage1, Bool.and_eq_true, Bool.not_eq_true'] at hst
+    obtain ⟨⟨hlex, hstb⟩, _⟩ := hst
+    simp only [gen] at hnop ⊢
+    generalize hlb : glen body none (BS.forof lab :: ctx.map BI.shape) = lb at *
+    have hnb : Instr.nop ∉ gen body sp.id none (BI.forof lab (cs.code.size + 1 + 2 + lb + 1 + 2) (cs.code.size + 1) :: ctx)
+        (cs.code.size + 1 + 2) := fun h => hnop (by simp [h])
+    let c : BI := BI.forof lab (cs.code.size + 1 + 2 + lb + 1 + 2) (cs.code.size + 1)
+    let cs1 := cs.push { typ := BT.loopEnum, label := lab }
+    have P0 : InR c ctx cs cs1 [] := InR.push hi ⟨rfl, rfl, rfl⟩ rfl rfl
+    let cs3 := cs1.emit (Instr.iterateP sp)
+    let cs4 := cs3.modTop (fun b => { b with cont := cs3.size })
+    let cs5 := cs4.emit Instr.nop
+    let cs7 := cs5.emit (Instr.enumGet sp.id)
+    have P2 : InR c ctx cs cs7 [Instr.iterateP sp, Instr.nop, Instr.enumGet sp.id] := by
+      have a := (P0.step (EqR.emit P0.inv (Instr.iterateP sp))).modTop_cont cs3.size
+      have b := a.step (EqR.emit a.inv Instr.nop)
+      have c' := b.step (EqR.emit b.inv (Instr.enumGet sp.id))
+      simpa using c'
+    have e3 : cs3.size = cs.code.size + 1 := by simp [cs3, cs1, CS.emit, CS.push, CS.size]
+    have hs7 : cs7.code.size = cs.code.size + 1 + 2 := by rw [P2.size]; rfl
+    have hb7 : cs7.blocks = { typ := BT.loopEnum, label := lab, cont := cs3.size } :: cs.blocks := by
+      simp [cs7, cs5, cs4, cs3, cs1, CS.emit, CS.push, CS.modTop]
+    have A := ih sp.id none (c :: ctx) cs7 hstb (fun _ => rfl) P2.inv (by rw [hs7]; exact hnb)
+    rw [hs7] at A
+    let cs8 := compileCF sp.id none body cs7
+    have hs8 : cs8.code.size = cs.code.size + 1 + 2 + lb := by
+      rw [A.size, hs7, gen_length]; simp only [List.map_cons, BI.shape, c, hlb]
+    let cs10 := cs8.emit (Instr.jump (CS.rel cs3.size cs8.size))
+    have P3 := P2.step A
+    have P4 := P3.step (EqR.emit P3.inv (Instr.jump (CS.rel cs3.size cs8.size)))
+    have hfresh : cs.code.size + 1 ∉ pendAll cs10.blocks := by
+      show cs.code.size + 1 ∉ pendAll cs8.blocks
+      apply fresh_of_new (bs0 := cs7.blocks) (n := cs.code.size + 1 + 2)
+      · intro k hk
+        rw [hb7] at hk
+        have : k ∈ pendAll cs.blocks := by simpa [pendAll, List.flatMap_cons] using hk
+        have := hi.p k this
+        omega
+      · omega
+      · intro k hk
+        rcases A.new k hk with h | h
+        · exact Or.inl h
+        · exact Or.inr (by rw [hs7] at h; exact h)
+    have P5 := InR.patch (A := [Instr.iterateP sp]) (y := Instr.nop)
+      (Instr.iterNext (CS.rel cs10.size cs3.size)) (q := cs3.size)
+      (by simpa using P4) (by rw [e3]; rfl) (by rw [e3]; exact hfresh)
+    let cs11 := cs10.patch cs3.size (Instr.iterNext (CS.rel cs10.size cs3.size))
+    let cs12 := (cs11.emit Instr.enumPop).emit (Instr.jump 2)
+    have P5a := P5.step (EqR.emit P5.inv Instr.enumPop)
+    have P6 := P5a.step (EqR.emit P5a.inv (Instr.jump 2))
+    have hs10 : cs10.code.size = cs.code.size + 1 + 2 + lb + 1 := by simp [cs10, CS.emit, hs8]
+    have hs12 : cs12.code.size = cs.code.size + 1 + 2 + lb + 1 + 2 := by
+      simp [cs12, cs11, CS.emit, CS.patch, hs10]
+    have L := P6.leave (fun b r hb => by
+      refine ⟨hs12.symm, ?_⟩
+      have hct := A.conts
+      rw [hb7] at hct
+      have hb12 : cs12.blocks = cs8.blocks := rfl
+      rw [hb12] at hb
+      rw [hb] at hct
+      simp only [List.map_cons, List.cons.injEq] at hct
+      show cs.code.size + 1 = b.cont
+      rw [hct.1]; exact e3.symm)
+    have F := L.snoc Instr.enumPopClose
+    have hstate : compileCF cur lab (Stmt.forOf sp body) cs = cs12.leaveBlock.emit Instr.enumPopClose := by
+      simp only [compileCF, hlex, Bool.false_eq_true, if_false]
+      rfl
+    rw [hstate]
+    have e8 : cs8.size = cs.code.size + 1 + 2 + lb := hs8
+    have e10 : cs10.size = cs.code.size + 1 + 2 + lb + 1 := hs10
+    refine F.congrG ?_
+    rw [e10, e3, e8]
+    simp [c, Nat.add_assoc]
   | lbl l s ih =>
     intro cur lab ctx cs hst _ hi hnop
     simp only [stage1, Bool.and_eq_true] at hst
